@@ -234,7 +234,9 @@ func Yield(site string) {
 	if t == nil {
 		if goid() != s.schedGoid {
 			s.mu.Lock()
-			s.unknown++
+			if !s.free {
+				s.unknown++
+			}
 			s.mu.Unlock()
 		}
 		return
@@ -328,8 +330,13 @@ func Go(f func()) {
 	}
 	s.mu.Lock()
 	if s.free {
+		// abort mode: nobody schedules any more, but a panic must still not
+		// take the process down
 		s.mu.Unlock()
-		go f()
+		go func() {
+			defer func() { recover() }()
+			f()
+		}()
 		return
 	}
 	t := &Task{ID: s.nextID, wake: make(chan struct{})}
